@@ -165,3 +165,18 @@ Fixpoint find_entry (es : list entry) (id : N) : outcome (option entry) :=
     do hi <- add64 (e_id e) (e_run e);
     if (e_id e <=? id) && (id <? hi) then Ok (Some e) else find_entry r id
   end.
+
+(** ** With compression: [Directory::from_reader] / [to_writer] (and the async twins, which differ only
+    in the encoder used). The decoder reads lazily from the decompressed stream. *)
+Require Import PM.Oracles.
+Section WithCtx.
+  Context (cx : ctx).
+  Definition decode_dir (c : compression) (bs : bytes) : outcome (list entry) :=
+    do (plain, _) <- decompress_lazy cx c bs;
+    decode_dir_plain plain.
+  (** [compress(..)?] is called before any entry is looked at *)
+  Definition encode_dir (asy : bool) (c : compression) (es : list entry) : outcome bytes :=
+    do _ <- compress cx asy c [];
+    do plain <- encode_dir_plain es;
+    compress cx asy c plain.
+End WithCtx.
